@@ -544,7 +544,9 @@ def run_parent(prop: str, tier: str, seed: int, replay: Optional[str], shards_ov
         rec = json.load(open(os.path.join(VERIF, k["replay"])))
         fails = replay_case(mod, ctx, rec)
         hit = [f for f in fails.values() if f["clause"] == k["clause"]]
-        other = [f for f in fails.values() if f["clause"] != k["clause"]]
+        # several known findings may share one canonical case (one defect seen by two clauses)
+        listed = {k2["clause"] for k2 in known if k2["replay"] == k["replay"]}
+        other = [f for f in fails.values() if f["clause"] not in listed]
         if hit:
             known_lines.append(f"KNOWN-FINDING: property={prop} {k['id']}: {k['what']}")
         else:
